@@ -384,11 +384,12 @@ where
     // (2) out-of-range indices are errors before any work, for repeated and iterated forms
     // just beyond the list, around the machine-word sizes, aliases of the valid indices modulo
     // 64 / 2^32, and the largest values
-    let mut js: Vec<usize> = vec![n, n + 1, 63, 64, 65, 127, 128, 129, 1usize << 32, (1usize << 32) + 1, usize::MAX, usize::MAX - 1];
+    let mut js: Vec<usize> = vec![n, n + 1, 63, 64, 65, 127, 128, 129, 255, 256, 257, 65535, 65536, 1usize << 32, (1usize << 32) + 1, usize::MAX, usize::MAX - 1];
     // (for expressions with many variables: the first, a middle and the last valid index)
     let valid: Vec<usize> = if n <= 4 { (0..n).collect() } else { vec![0, n / 2, n - 1] };
     for &i in &valid {
-        js.extend([64 + i, 128 + i, (1usize << 32) + i, usize::MAX - 63 + i]);
+        js.extend([64 + i, 128 + i, 256 + i, 65536 + i, (1usize << 32) + i]);
+        js.extend((usize::MAX - 63).checked_add(i));
     }
     if seq.len() > 1 {
         // deeper histories: the two indices just beyond the list
@@ -429,7 +430,8 @@ where
                     }
                 }
             }
-            for kind in 0..4u8 {
+            // (all four iterator kinds for the indices just beyond the list, one kind for the far ones)
+            for kind in 0..if near(j) { 4u8 } else { 1 } {
                 out.steps += 1;
                 if e0.partial_iter_hint(&bad_seq, kind).is_ok() {
                     bad("index-not-rejected", format!("partial_iter({bad_seq:?} from a {} iterator) accepted an index >= {n}", ["filter", "from_fn", "take_while", "flat_map"][kind as usize]));
@@ -537,7 +539,7 @@ pub fn replay(case: &Value) -> i32 {
 
 pub fn run(tier: Tier) -> i32 {
     let mut rep = Report::new("C09", tier);
-    rep.rule = "explicit-state exploration: state = (base expression, form, index history), actions = partial(i) for every i in 0..n_vars+1 (two out-of-range indices; in the states reached by at most one step also out-of-range indices around 64, 128, 2^32 and usize::MAX incl. the aliases of the valid indices modulo 64 and 2^32, alone and after / before valid ones), histories of length 0..4; in every state: variable list unchanged, same slice evaluates, partial_iter / partial_iter_relaxed of the history = sequential partials, partial_nth = repeated partial, order 0 = identity, mixed partials equal in either order, out-of-range indices rejected by partial / partial_nth / partial_iter before any number is constructed; equalities are structural or decided exactly over Q (rational fragment) / by rounding bounds (else); distinct = unique structural dumps; non-trivial = history with at least one partial".into();
+    rep.rule = "explicit-state exploration: state = (base expression, form, index history), actions = partial(i) for every i in 0..n_vars+1 (two out-of-range indices; in the states reached by at most one step also out-of-range indices around 64, 128, 256, 2^16, 2^32 and usize::MAX incl. the aliases of the valid indices modulo 64, 256, 2^16 and 2^32, alone and after / before valid ones), histories of length 0..4; in every state: variable list unchanged, same slice evaluates, partial_iter / partial_iter_relaxed of the history = sequential partials, partial_nth = repeated partial, order 0 = identity, mixed partials equal in either order, out-of-range indices rejected by partial / partial_nth / partial_iter before any number is constructed; equalities are structural or decided exactly over Q (rational fragment) / by rounding bounds (else); distinct = unique structural dumps; non-trivial = history with at least one partial".into();
     rep.assumptions = vec!["'work' is observed through a counter on the data type's From<u8>/From<f32> conversions, which only differentiation and the neutral-element shortcuts request".into()];
     install_panic_hook();
     let t = num_table();
@@ -566,6 +568,9 @@ pub fn run(tier: Tier) -> i32 {
     ];
     let m = Bookkeeping { texts: Arc::new(many), max_len: if tier.thorough() { 3 } else { 2 } };
     explore(m, &mut rep, "c09", "4 base expressions with 18..19 variables x flat/deep");
+    // (a base expression with more than 256 variables was tried: differentiating a sum of 258
+    // operands costs the library minutes per state - see finding R2 - so the byte boundary is covered
+    // by the out-of-range aliases 256 + i and 65536 + i of the valid indices instead)
     crate::derived::run_derived(&mut rep, "C09", crate::derived::Focus::Diff, tier.thorough());
     rep.finish()
 }
